@@ -314,7 +314,7 @@ func rulesC16(c *Ctx) {
 	if fn := c.MustFunc("C16.d", "objects.Queue.addChildQueue"); fn != nil {
 		f := p.Field("objects.Queue.children")
 		for _, w := range p.FieldWrites(f) {
-			if w.Fn != fn {
+			if !p.inFn(w.Fn, fn) {
 				continue
 			}
 			st := p.StateAt(fn, w.Node)
